@@ -94,7 +94,8 @@ RULES = {
               ("R20", link.r20_target)),
     "C16": _u(REGRID, ("R32c", grid.r32c_cellcenters), ("R32", grid.r32_gridsib), ("R32b", grid.r32b_indexspace), ("R32d", grid.r32d_cellcorners),
               ("R41", misc.r41_masktruth), ("R37", data.r37_masktable), ("R16", data.r16_getinfo)),
-    "C17": _u(UNITS, ("R18", link.r18_pullpath), ("R15", data.r15_fields), ("R16u", data.r16u_delivered_units), ("R24", spill2.r24s_format)),
+    "C17": _u(UNITS, ("R18", link.r18_pullpath), ("R15", data.r15_fields), ("R16u", data.r16u_delivered_units), ("R24", spill2.r24s_format),
+              ("R40", link.r40_cbtime), ("R39", buffer.r39_static)),
     "C18": _u(("R37", data.r37_masktable), ("R37e", data.r37e_masks_equal_layout), ("R37p", data.r37p_prepare_mask), ("R33c", data.r33c_compress), UNITS,
               ("R15", data.r15_fields), ("R41", misc.r41_masktruth)),
     "C19": _u(VALID, ("R06", life.r06_life), ("R20", link.r20_target)),
